@@ -273,6 +273,7 @@ def parseRouterOp : List String → Option Router.Op
   | ["add", r] => r.toNat?.map .addRoute
   | ["send", r, t] => match r.toNat?, t.toNat? with | some a, some b => some (.send a b) | _, _ => none
   | ["drop", r] => r.toNat?.map .dropSender
+  | ["badfwd", r] => r.toNat?.map .badFwd
   | ["shutdown"] => some .shutdown
   | ["dropproxy"] => some .dropProxy
   | _ => none
